@@ -9,5 +9,5 @@ JOBS = [
  _j("c05_reader", "h_kf_c05_reader", ["C05"], "integer reader: failure only with an error queued; literals starting with '.' excluded", "parameter texts <= 4 bytes over {1 . - A blank ,}"),
  _j("c05_reader.confirm", "h_kf_c05_reader", ["C05"], "confirmation: '.5' given to an integer reader fails with nothing queued", "same", defines=["CONFIRM"], known_finding="C05-int-reader-dot"),
  _j("c05_block_flush.confirm", "h_kf_c05_block_flush", ["C05"], "confirmation: incomplete block at a flush runs the handler with no error", "one fixed stream", known_finding="C05-incomplete-block-flush"),
- _j("c08_quoted_newline.confirm", "h_kf_c08_quoted_newline", ["C08"], "confirmation: newline inside a quoted string is cut differently per chunking", "one fixed stream, every split point", known_finding="C08-quoted-newline"),
+ _j("c08_quoted_newline.confirm", "h_kf_c08_quoted_newline", ["C08"], "confirmation: newline inside a quoted string is cut differently per chunking", "one fixed stream, split right after the embedded newline", known_finding="C08-quoted-newline"),
 ]
